@@ -174,7 +174,14 @@ def _history(case):
     ]
     for o in (0, 1, 3):
         ops.append((f"replace(order={o}).simulate", lambda sim, o=o: np.asarray(sim.replace(order=o).simulate(shape))))
-    res = history.explore(make, ops, case["depth"], atol=1e-5, rtol=1e-5)
+    ta2 = data.particle_box((5, 5, 5), blobs=[(1.0, (0.8, -0.6, 0.4), 1.0), (0.7, (-0.9, 0.7, -0.5), 0.8)]).astype(np.float32)
+    mutators = [
+        # the template of component "a" is replaced (same molecules): later simulations contain the new one
+        ("overwrite(a)", lambda sim: sim.add_molecules(sim.components["a"].molecules, ta2, name="a", overwrite=True)),
+        ("add(c)", lambda sim: sim.add_molecules(Molecules(np.array([[11.0, 4.0, 12.0]])), ta2, name="c", overwrite=True)),
+    ]
+    res = history.explore(make, ops, max(case["depth"], 3), atol=1e-5, rtol=1e-5, mutators=mutators,
+                          prefixes_only_from={"simulate", "simulate_2d", "tilt_series", "replace(order=1).simulate", "subset(a).simulate"} if case["depth"] < 3 else None)
     if res["raises_alone"]:
         raise RuntimeError(f"harness: operations {res['raises_alone']} raise on a fresh simulator")
     viol, seen = [], set()
@@ -364,4 +371,26 @@ def _projection(case):
     viol = []
     if p2.shape != ref.shape or np.abs(p2 - ref).max() > 1e-4 * max(1.0, np.abs(ref).max()):
         viol.append((f"{ID}|projection|not-the-z-projection|nmol={'1' if nmol == 1 else '>1'}", f"{nmol} molecule(s), template {ts}, order {order}: simulate_2d mass {p2.sum():.3f}, z-projection of simulate mass {ref.sum():.3f}, max difference {np.abs(p2 - ref).max():.3g}"))
+    # simulate_projection with the plane axes (y, x) and the plane centred on the image centre is the same z-projection, and a plane
+    # moved by whole pixels moves the picture by whole pixels.  Checked on grid-coincident poses (integer positions, odd
+    # template, cube rotations), where every interpolation order is exact and nothing is truncated.
+    if all(n % 2 == 1 for n in ts):
+        H, W = VOL[1:]
+        ipos = np.array([[9.0, 8.0, 7.0], [12.0, 5.0, 12.0], [10.0, 13.0, 4.0]])[:nmol]
+        irot = Rotation.from_matrix(np.array([data.rot_matrix("cube0" if case["rot"] == "cube0" else "cube5")] * nmol))
+        sim2 = _sim(order, 1.0)
+        sim2.add_molecules(Molecules(ipos, irot), tm)
+        ref2 = np.asarray(sim2.simulate((zsize,) + VOL[1:])).astype(np.float64).sum(axis=0)
+        pz = np.asarray(sim2.simulate_projection((H, W), center=(0.0, (H - 1) / 2, (W - 1) / 2), xaxis=(0.0, 0.0, 1.0), yaxis=(0.0, 1.0, 0.0))).astype(np.float64)
+        tolp = (1e-5 if order < 3 else 1e-3) * max(1.0, np.abs(ref2).max())
+        if pz.shape != ref2.shape or np.abs(pz - ref2).max() > tolp:
+            viol.append((f"{ID}|simulate_projection|not-the-z-projection|order={order}", f"{nmol} molecule(s) at integer positions, template {ts}, order {order}: projection along z differs from the z-projection of simulate() by {np.abs(pz - ref2).max():.3g} (mass {pz.sum():.3f} vs {ref2.sum():.3f})"))
+        ps = np.asarray(sim2.simulate_projection((H, W), center=(5.0, (H - 1) / 2 + 2.0, (W - 1) / 2 - 3.0), xaxis=(0.0, 0.0, 2.0), yaxis=(0.0, 0.5, 0.0))).astype(np.float64)
+        want = np.zeros_like(ref2)
+        want[: H - 2, 3:] = ref2[2:, : W - 3]
+        if np.abs(ps - want).max() > tolp:
+            viol.append((f"{ID}|simulate_projection|plane-centre|order={order}", f"moving the plane centre by (+2, -3) px (and rescaling the axis vectors) does not shift the projection by (-2, +3) px: max difference {np.abs(ps - want).max():.3g}"))
+        ts_ = np.asarray(sim2.simulate_tilt_series([0.0], (zsize,) + VOL[1:])).astype(np.float64)
+        if ts_.shape != (1, H, W) or np.abs(ts_[0] - ref2).max() > tolp:
+            viol.append((f"{ID}|simulate_tilt_series|zero-tilt-not-the-z-projection|order={order}", f"the 0-degree image of a tilt series differs from the z-projection by {np.abs(ts_[0] - ref2).max() if ts_.shape == (1, H, W) else ts_.shape}"))
     return {"nontrivial": True, "outcome": f"projection|{'viol' if viol else 'ok'}", "viol": viol}
